@@ -198,6 +198,37 @@ def run(ctx: Ctx) -> int:
     ok = bool(store) and bool(pop)
     ctx.oblige("C16.d", ok, store[0] if store else af, "the applied set is carried in the configuration between per-component calls and removed at the end" if ok else "applied-links bookkeeping is no longer carried between calls", fn=af, construct="applied set carried")
 
+    # dotted-key prefix tests include the separator (`net` must not match `net_head`)
+    n_sw = 0
+    for fref in ("_link_arguments:ActionLink.apply_instantiation_links", "_link_arguments:ActionLink.reorder", "_link_arguments:ActionLink.instantiation_order", "_link_arguments:is_nested_instantiation_link", "_link_arguments:ActionLink.set_target_value"):
+        fn_ = ctx.func(fref)
+        for c in calls_in(fn_):
+            if call_leaf(c) == "startswith" and isinstance(c.func, ast.Attribute) and c.args:
+                a0 = c.args[0]
+                n_sw += 1
+                def ends_with_dot(e):
+                    if isinstance(e, ast.JoinedStr):
+                        return bool(e.values) and isinstance(e.values[-1], ast.Constant) and str(e.values[-1].value).endswith(".")
+                    if isinstance(e, ast.BinOp) and isinstance(e.op, ast.Add):
+                        return ends_with_dot(e.right)
+                    if isinstance(e, ast.Constant) and isinstance(e.value, str):
+                        return e.value.endswith(".") or True  # literal prefixes are not key prefixes
+                    return False
+                ok = ends_with_dot(a0)
+                ctx.oblige("C16.b", ok, c, "key-prefix test ends with the '.' separator" if ok else f"key-prefix test {src(c, 60)} lacks the '.' separator: a component whose name merely starts with the same characters is treated as nested below the target", fn=fn_)
+    ctx.floor("C16.b-prefix-tests", n_sw, 3)
+    # shared-prefix bookkeeping: every target is remembered once it was processed
+    sl = [n_ for n_ in walk_local(iof) if isinstance(n_, ast.For) and any(call_leaf(c) == "add" and root_name(c.func) == "seen_targets" for c in calls_in(n_))]
+    if sl:
+        outer = sl[0]
+        gi = ctx.cfg(iof)
+        adds = [c for c in calls_in(outer) if call_leaf(c) == "add" and root_name(c.func) == "seen_targets"]
+        starts_i = [t for h in gi.node_ids_of(outer) for t, lab in gi.nodes[h].succ if lab == "loop"]
+        ok = gi.must_pass(gi.cn(adds), starts_i, gi.node_ids_of(outer), exclude_labels=NX)
+        ctx.oblige("C16.a", ok, adds[0], "every processed target is added to seen_targets (shared-parent edges depend on it)" if ok else "a target can be processed without being remembered in seen_targets: shared-parent ordering edges are lost for later targets", fn=iof)
+    else:
+        ctx.oblige("C16.a", False, iof, "seen_targets bookkeeping vanished from instantiation_order", fn=iof, construct="seen_targets bookkeeping")
+
     ctx.notes.append("C16's exhaustive claim (correct topological order / cycle report for every digraph) is NOT decided by this check; only the wiring and the DFS typestate are.")
     return ctx.finish(
         explanation=(
